@@ -2,8 +2,7 @@
     [SUB c n..] [PSUB c n..]            -> (name count is_new)*
     [UNSUB c k n..] [PUNSUB c k n..]    -> (name count is_new)*      k = 0: all (None), 1: Some(names)
     [UNSUBALL c]                        -> []
-    [PUB ch msg (c haspat pat)*]        -> n (c haspat pat)*  sorted by c; the trailing triples are
-                                           the implementation's receivers (oracle for the pattern pick)
+    [PUB ch msg]                        -> n (c haspat pat)*  sorted by (c, haspat, pat)
     [INFO c]                            -> exists nch ch.. npat pat..   (sorted)
     [ISSUB c] [CNT ch]                  -> 0/1, count
     [MATCH pat text]                    -> 0/1
@@ -16,10 +15,19 @@ Fixpoint tok_names (t : list tok) : list bytes :=
 Definition enc_subres (l : list subres) : list tok :=
   flat_map (fun r => [TB (r_name r); TI (r_count r); TI (if r_new r then 1 else 0)]) l.
 
+(** canonical order of a receiver list: by connection, channel entry before pattern entries,
+    patterns in byte order (= Rust's Ord on (u64, Option<Vec<u8>>)) *)
+Definition rleb (x y : receiver) : bool :=
+  if fst x <? fst y then true else if fst y <? fst x then false else
+  match snd x, snd y with
+  | None, _ => true
+  | Some _, None => false
+  | Some p, Some q => bleb p q
+  end.
 Fixpoint rinsert (x : receiver) (l : list receiver) : list receiver :=
   match l with
   | [] => [x]
-  | y :: r => if fst x <=? fst y then x :: l else y :: rinsert x r
+  | y :: r => if rleb x y then x :: l else y :: rinsert x r
   end.
 Definition rsort (l : list receiver) : list receiver := fold_right rinsert [] l.
 Definition enc_receivers (l : list receiver) : list tok :=
@@ -27,11 +35,6 @@ Definition enc_receivers (l : list receiver) : list tok :=
                                    | (c, Some p) => [TI c; TI 1; TB p]
                                    | (c, None) => [TI c; TI 0; TB []]
                                    end) (rsort l).
-Fixpoint dec_choice (t : list tok) (c : Z) : option bytes :=
-  match t with
-  | TI c' :: TI k :: TB p :: r => if c =? c' then (if k =? 1 then Some p else None) else dec_choice r c
-  | _ => None
-  end.
 
 Fixpoint strings_of_len (alpha : bytes) (n : nat) : list bytes :=
   match n with
@@ -78,7 +81,7 @@ Definition c14_op (s : pubsub) (op : list tok) : list tok * pubsub :=
         end
       else if beq name (bs "PUB") then
         match rest with
-        | TB ch :: TB _ :: orc => (enc_receivers (publish_with (dec_choice orc) s ch), s)
+        | TB ch :: TB _ :: _ => (enc_receivers (publish s ch), s)
         | _ => ([TB (bs "BADOP")], s)
         end
       else if beq name (bs "INFO") then
